@@ -184,7 +184,9 @@ fn judge_image(
     // two candidates may have the same logical content (e.g. a transaction that creates and
     // deletes a node); the number of allocated node slots tells which one the engine is in
     let matching: Vec<usize> = cands.iter().copied().filter(|c| d.inv.is_empty() && d.g == rec.models[*c].g).collect();
-    if let Some(c) = matching.iter().copied().find(|c| rec.models[*c].next_iid == engine_next_iid) {
+    // prefer the later state: with equal content and slot count its bookkeeping (edge keys whose
+    // re-creation the generator must avoid) is a superset of the earlier one's
+    if let Some(c) = matching.iter().rev().copied().find(|c| rec.models[*c].next_iid == engine_next_iid) {
         out.matched = Some(c);
         return (out, Some((sb, rec.models[c].clone())));
     }
@@ -463,6 +465,17 @@ impl CrashCheck {
             }
             let d = r.dump();
             let diffs = discrepancies(&d, &r.model);
+            if !diffs.is_empty() && std::env::var("VERIF_DEBUG").is_ok() {
+                eprintln!("--- continuation ops: {ops:?}");
+                eprintln!("--- start image wal:");
+                for l in crate::checks::faults::wal_dump(start.files.get("g.wal").map(|v| v.as_slice()).unwrap_or(&[])) {
+                    eprintln!("{l}");
+                }
+                eprintln!("--- wal now:");
+                for l in crate::checks::faults::wal_dump(&std::fs::read(sb.wal()).unwrap_or_default()) {
+                    eprintln!("{l}");
+                }
+            }
             if !diffs.is_empty() {
                 let classes = classes_of(&diffs);
                 let detail: Vec<String> = diffs.iter().take(5).map(|(c, t)| format!("[{c}] {t}")).collect();
